@@ -59,6 +59,8 @@
             vec![cons(bin(BinOp::Add, Exp::UnOp(UnOp::Neg, Box::new(bin(BinOp::Sub, x.clone(), num(2.0)))), num(1.0)), ge, bin(BinOp::Div, bin(BinOp::Sub, num(3.0), y.clone()), num(2.0))), cons(y.clone(), le, num(1.0))],
             vec![cons(bin(BinOp::Sub, bin(BinOp::Add, x.clone(), y.clone()), bin(BinOp::Sub, x.clone(), num(1.0))), le, num(3.0)), cons(x.clone(), ge, bin(BinOp::Mul, bin(BinOp::Add, y.clone(), num(1.0)), num(-0.5)))],
             vec![cons(bin(BinOp::Sub, num(3.0), x.clone()), le, bin(BinOp::Mul, bin(BinOp::Add, y.clone(), num(1.0)), num(2.0))), cons(bin(BinOp::Div, bin(BinOp::Sub, num(6.0), k.clone()), num(-3.0)), le, x.clone())],
+            // a product whose constant factor is zero (either side) over a sum with a constant: the whole term is 0
+            vec![cons(bin(BinOp::Add, bin(BinOp::Mul, num(0.0), bin(BinOp::Add, x.clone(), num(5.0))), y.clone()), le, num(3.0)), cons(bin(BinOp::Sub, k.clone(), bin(BinOp::Mul, bin(BinOp::Sub, y.clone(), num(2.0)), num(0.0))), ge, num(1.0))],
         ]
     }
     #[test]
